@@ -1,7 +1,11 @@
 (* Arithmetic facts shared by the proofs about the command ring: power-of-two capacities,
    index = position mod capacity, 8-byte alignment, windows of positions, and the checked /
    truncating operators of Model/Ring.v on the ranges that occur. *)
-Require Import V.Base.MachineInt V.Generated.GenConsts V.Model.LogBase V.Model.Ring V.Spec.Fifo.
+Require Import V.Base.MachineInt.
+Require Import V.Generated.GenConsts.
+Require Import V.Model.LogBase.
+Require Import V.Model.Ring.
+Require Import V.Spec.Fifo.
 From Coq Require Import ZifyBool Lia Znumtheory.
 Open Scope Z_scope.
 
